@@ -43,16 +43,32 @@ PROPS: dict[str, dict] = {
         "explanation": "commute of every operation class x every node-capable existing operation class (split into cells), all targets: X is a free row sequence",
     },
     "C03": {
-        "modules": ["apply"],
+        "modules": ["c20"],
         "assumptions": ["laws of tiers L/T1/T2/T3 (spec/laws.py): assumed, bounded-checked natively, not yet Lean-proved",
                         "joins: no column is exposed by both operands without being joined on (the property leaves the provenance of such columns open)",
                         "Engine.append_unary / transfer / conform of lsst.daf.relation.sql are assumed to satisfy the generic engine contracts here (they are the subject of C02/C17)"],
         "explanation": "UnaryOperation.apply, every _begin_apply/_finish_apply, Engine.backtrack_unary (base + iteration), MarkerRelation.reapply, Transfer.simplify, commute (shared with C04)",
     },
     "C05": {
-        "modules": ["op_slice"],
-        "assumptions": [],
-        "explanation": "Slice.then / simplify contracts: merged operation equals the two applied in sequence; merging never raises.",
+        "modules": ["c20"],
+        "assumptions": ["laws of tiers L/T1/T2 (spec/laws.py): assumed, bounded-checked natively, not yet Lean-proved"],
+        "explanation": "Slice.then, Sort.then, simplify of every class, every _finish_apply (recursive merging) and the Identity short-cuts of _begin_apply: merged tree has the rows of the two operations in sequence; no exception besides EngineError for unsupported operations",
+    },
+    "C14": {
+        "modules": ["c20"],
+        "assumptions": ["trees are built through the factories (closed world): the class invariants proved at every construction site in the library hold for every node",
+                        "implementations in lsst.daf.relation.sql are assumed to satisfy the generic engine contracts (subject of C02/C17)"],
+        "explanation": "tree invariants as class invariants proved at every construction site (engine consistency, resolved joins, no placeholder operations, supported expressions, transfers change engine) + no-op clauses",
+    },
+    "C15": {
+        "modules": ["c20"],
+        "assumptions": ["implementations in lsst.daf.relation.sql are assumed to satisfy the generic engine contracts (subject of C02/C17)"],
+        "explanation": "Transfer.simplify / Materialization.simplify / Engine.transfer / Engine.materialize / MarkerRelation.reapply / backtrack_unary locked clause",
+    },
+    "C20": {
+        "modules": ["c20"],
+        "assumptions": ["'leaves every existing relation unchanged' is the frame property of C09"],
+        "explanation": "exceptional postconditions (must-raise / raises-only-when) of _begin_apply, apply, binary _begin_apply/_finish_apply, constructors and __getitem__",
     },
 }
 
@@ -82,5 +98,38 @@ PROPS["C19"].update(
                "Uniqueness over every history and interleaving follows because no postcondition depends on the shared counter.",
     level_note=_COMMON_NOTE + "Assumed: uuid4 freshness (an assumed contract on an external function); schedules are not explored, the argument is independence from shared state.",
 )
-CLAIMED = {"C06", "C13", "C16", "C19"}
+_LAWS = ("Assumed: the law library spec/laws.py (algebra of filter/calc/proj/dedup/sort/slice/chain/join on row sequences) -- every law is bounded-checked natively "
+         "on concrete rows on demand (spec/lawcheck.py) but not yet machine-proved; ")
+PROPS["C04"].update(
+    level_text="commute of all 9 operation classes is proved against the C04 contract for every one of the 6 node-capable existing operation classes (54 cells, each its own obligation), "
+               "with the target rows a free variable: well-formedness of the reported operations, row-sequence equality for full and partial moves, refusal hands back the existing operation. "
+               "Three cells are genuine defects recorded as known findings (F4, F7, F19), each re-proved with the finding's witness class excluded.",
+    level_note=_COMMON_NOTE + _LAWS + "join cells assume a resolved join without columns exposed by both operands outside the join columns. Undischarged obligations get a bounded native search (replay/concretise.py) for a concrete failing input.",
+)
+PROPS["C03"].update(
+    level_text="UnaryOperation.apply, every _begin_apply, iteration and base Engine.backtrack_unary, MarkerRelation.reapply and Engine.transfer/append_unary are proved: the returned relation's rows equal the operation applied at the root "
+               "for every option combination, ColumnError only for requests ill-formed at the root, locked trees untouched. The projection cells of backtrack_unary (partially moved projections) are covered by a bounded native stand-in, labelled bounded.",
+    level_note=_COMMON_NOTE + _LAWS + "SQL-engine implementations of append_unary/transfer/conform are assumed to meet the generic engine contracts (C02/C17). Joins: unshadowed, preferred engine = fixed operand's engine. Known findings F4/F7/F19 (commute) apply.",
+)
+PROPS["C05"].update(
+    level_text="Slice.then (window arithmetic, all integers), Sort.then (loop invariant over term lists), simplify of every class and the recursive merging in UnaryOperation._finish_apply are proved: the merged tree has exactly the rows of the two operations in sequence, "
+               "the merged operation is valid and supported wherever both were, and no exception other than EngineError-for-unsupported can escape; the Identity short-cuts of _begin_apply/_finish_apply are proved to be no-ops.",
+    level_note=_COMMON_NOTE + _LAWS,
+)
+PROPS["C14"].update(
+    level_text="The tree invariants are class invariants proved at every construction site of a relation node in the library (UnaryOperationRelation, BinaryOperationRelation, Transfer, Materialization via reapply/transfer/materialize/_finish_apply): "
+               "operation valid on and supported by its target's engine, operands of binary nodes share an engine, joins resolved on columns of both operands, no placeholder operation as node, transfers cross engines; engine/is_locked attribute definitions proved per class; documented no-ops return the relation itself.",
+    level_note=_COMMON_NOTE + "SQL-engine node construction (Select.apply_skip etc.) is not covered here (C17); sql.Engine.transfer re-wraps its argument (a known deviation from 'transfer to the current engine returns the relation itself', see DESIGN F15).",
+)
+PROPS["C15"].update(
+    level_text="Transfer.simplify (never looks through a locked relation; shortcut has the same rows in the destination engine), Materialization.simplify, base Engine.transfer/materialize (no new node for leaves/materializations, self-transfer is a no-op), "
+               "MarkerRelation.reapply (precondition: never applied to a Materialization) and the locked-tree clause of backtrack_unary (locked tree returned as the identical object, not done) are proved.",
+    level_note=_COMMON_NOTE + "SQL-engine overrides of transfer/materialize are assumed (C17). Projection cells of backtrack_unary are bounded (stand-in S-C03-projection-backtracking).",
+)
+PROPS["C20"].update(
+    level_text="Exceptional postconditions: every _begin_apply and UnaryOperation.apply must raise ColumnError for each documented ill-formedness whatever the preferred-engine options (proved from the body: _begin_apply runs first), and raises it only then; "
+               "Chain/Join _begin_apply/_finish_apply (EngineError/ColumnError), Slice/Calculation/Join/ColumnFunction/PredicateFunction/LeafRelation constructors and BaseRelation.__getitem__ (TypeError/ValueError) likewise.",
+    level_note=_COMMON_NOTE + "'A rejected call leaves every existing relation unchanged' is the frame property C09, not re-proved here.",
+)
+CLAIMED = {"C03", "C04", "C05", "C06", "C13", "C14", "C15", "C16", "C19", "C20"}
 NOT_CLAIMED: dict[str, str] = {}
